@@ -65,6 +65,9 @@ func runC17(p *Prog, r *Report) {
 	r.Floor("C17.5/send-contract", "e5.send_implementations", 30)
 	r.Describe("C17.6/unique-sites", "every function that writes through a possibly shared message makes it unique first (frozen table of the four sites)")
 	uniqueSites(p, r, "C17.6/unique-sites", nil)
+	r.Describe("C17.7/fresh-backing-per-message", "a Header/Body slice installed into the messages of a receive loop is never backed by memory that outlives the iteration")
+	freshBackingPerMessage(p, r, "C17.7/fresh-backing-per-message", func(rel string) bool { return strings.HasPrefix(rel, "protocol/") || strings.HasPrefix(rel, "transport") })
+	r.Floor("C17.7/fresh-backing-per-message", "pool.in_loop_buffer_installs", 10)
 	r.Describe("C17.3/shared-queue", "a message received from a queue that is fed with Clone'd (shared) messages is made unique before it is returned to the application")
 	e5SharedQueues(p, r, "C17.3/shared-queue")
 	r.Describe("C17.4/no-write-through", "transport Send implementations never write through the message they send (shared messages are sent concurrently by several pipes)")
